@@ -415,18 +415,116 @@ def r23_2(ctx, fn, w, data):
     ctx.require(meth == "server_connect", f"ServerConnectHook now dispatches to {meth}, not server_connect")
 
 
+def r23_3(ctx):
+    """Self-connect decision extracted by interpreting Proxyserver.server_connect's AST (pyint, ``ipaddress`` trusted) over
+    representative listener configurations x destination spellings x transports; reference computed by the checker."""
+    import ipaddress
+
+    from ..pyint import Interp
+    from ..pyint import Raised
+    from ..pyint import Rec
+
+    fn = ctx.func(PS, "Proxyserver.server_connect")
+    where = (PS, "Proxyserver.server_connect", fn)
+
+    class _Log:
+        def __getattr__(self, name):
+            return lambda *a, **k: None
+
+    LOOP = ["localhost", "LOCALHOST", "localhost.", "127.0.0.1", "127.0.0.2", "127.255.255.254", "::1", "0:0:0:0:0:0:0:1", "::ffff:127.0.0.1"]
+    WILD = ["0.0.0.0", "::"]
+    REMOTE = ["example.com", "93.184.216.34", "2606:2800:220:1::1", "localhost.example.com", "10.0.0.9"]
+    # listener configurations: list of (mode transport, [(listen_host, listen_port)])
+    CONFIGS = {
+        "tcp@127.0.0.1:8080": [("tcp", [("127.0.0.1", 8080)])],
+        "tcp@[::]:8080+0.0.0.0:8080": [("tcp", [("::", 8080), ("0.0.0.0", 8080)])],
+        "tcp@192.168.1.5:8080": [("tcp", [("192.168.1.5", 8080)])],
+        "udp@127.0.0.1:8080 then tcp@127.0.0.1:8080": [("udp", [("127.0.0.1", 8080)]), ("tcp", [("127.0.0.1", 8080)])],
+        "tcp@127.0.0.1:8080 then udp@127.0.0.1:8080": [("tcp", [("127.0.0.1", 8080)]), ("udp", [("127.0.0.1", 8080)])],
+        "both@127.0.0.1:5353": [("both", [("127.0.0.1", 5353)])],
+        "tcp@127.0.0.1:8080 and tcp@127.0.0.1:8081": [("tcp", [("127.0.0.1", 8080)]), ("tcp", [("127.0.0.1", 8081)])],
+        "tcp@127.0.0.1:[9000,8080]": [("tcp", [("127.0.0.1", 9000), ("127.0.0.1", 8080)])],
+    }
+
+    def is_loopbackish(h):
+        return h in ("127.0.0.1", "::1", "::", "0.0.0.0", "") or h.startswith("127.")
+
+    def reference(cfg, host, port, tp):
+        """True = must refuse, False = must not refuse, None = not decided by the property."""
+        verdict = False
+        for mtp, addrs in cfg:
+            if not (mtp == tp or mtp == "both"):
+                continue
+            for lh, lp in addrs:
+                if lp != port:
+                    continue
+                if host == lh or host in WILD:
+                    return True
+                if host in LOOP:
+                    if is_loopbackish(lh):
+                        return True
+                    verdict = None  # loopback spelling while listening on one specific interface: over-refusal is allowed
+        if host in REMOTE:
+            return False
+        return verdict
+
+    n = 0
+    bad = {}
+    for cname, cfg in CONFIGS.items():
+        ports = sorted({lp for _, addrs in cfg for _, lp in addrs} | {4444})
+        hosts = LOOP + WILD + REMOTE + sorted({lh for _, addrs in cfg for lh, _ in addrs})
+        for host in hosts:
+            for port in ports:
+                for tp in ("tcp", "udp"):
+                    want = reference(cfg, host, port, tp)
+                    if want is None:
+                        continue
+                    it = Interp(ctx.model, trusted_modules={"ipaddress": ipaddress, "logging": _Log()})
+                    it.overrides[(PS, "logger")] = _Log()
+                    servers = [Rec("ServerInstance", mode=Rec("ProxyMode", transport_protocol=mtp, full_spec=cname), listen_addrs=[tuple(a) for a in addrs]) for mtp, addrs in cfg]
+                    srv = Rec("Server", _name="data.server", address=(host, port), transport_protocol=tp, sockname=None, error=None, via=None, sni=None, tls=False)
+                    data = Rec("ServerConnectionHookData", server=srv, client=Rec("Client", peername=("192.0.2.7", 50000), sockname=("127.0.0.1", 8080)))
+                    self_rec = Rec("Proxyserver", _impl=(PS, "Proxyserver"), servers=servers, _connect_addr=None, is_running=True)
+                    try:
+                        it.method(self_rec, "server_connect", data)
+                        got = bool(srv.error)
+                    except Raised as r:
+                        got = f"raises {r.name}"
+                    n += 1
+                    if got != want:
+                        bad.setdefault((cname, tp, got, want), []).append(f"{host}:{port}")
+    ctx.cells += n
+    for (cname, tp, got, want), dests in sorted(bad.items(), key=str):
+        ctx.fail("R23.3", where, f"listeners [{cname}], {tp} connection to {dests[0]}: refused={got}, expected {want}",
+                 f"a destination denoting mitmproxy's own listener is not refused (or an ordinary destination is); {len(dests)} destinations differ: {dests[:6]}")
+    if not bad:
+        ctx.ok("R23.3", f"{n} cells = {len(CONFIGS)} listener configurations x destination spellings x ports x transports agree with the reference")
+    ctx.bounds.append("R23.3: representative listener configurations and destination spellings, not all of them")
+
+
 def check(ctx):
+    ctx.rule("R23.3", "server_connect, interpreted from its AST, refuses exactly the destinations that denote an own listener of a matching transport (all listeners and listen addresses considered)")
+    ctx.guard(r23_3, ctx)
     ctx.rule("R23.1", "self-connect predicate == port equal and transport equal and (loopback / unspecified / localhost spelling or listen host), for all representative spellings")
     ctx.rule("R23.2", "hit sets a non-empty error on all paths; open_connection refuses (error hook + completion) before opening a socket")
     ctx.trust("str methods and ipaddress (is_loopback, is_unspecified, ipv4_mapped) as implemented by the checker's Python")
-    fn, w, data = r23_1(ctx)
-    ctx.expect_instances("R23.1", 1)
-    r23_2(ctx, fn, w, data)
-    ctx.expect_instances("R23.2", 5)
+    r = ctx.guard(r23_1, ctx)
+    if r is not None:
+        fn, w, data = r
+        ctx.expect_instances("R23.1", 1)
+        ctx.guard(r23_2, ctx, fn, w, data)
+        ctx.expect_instances("R23.2", 5)
 
 
 _FIXED = "and (_is_local_host(connect_host) or connect_host == listen_host)"
 MUTANTS = [
+    Mutant("transport-both-not-recognised", PS, """                    and server.mode.transport_protocol
+                    in (data.server.transport_protocol, "both")
+""", """                    and server.mode.transport_protocol == data.server.transport_protocol
+""", "R23.3"),
+    Mutant("stop-at-first-foreign-transport-listener", PS, "        for server in self.servers:\n            for listen_host, listen_port, *_ in server.listen_addrs:\n",
+           "        for server in self.servers:\n            if server.mode.transport_protocol not in (data.server.transport_protocol, \"both\"):\n                break\n            for listen_host, listen_port, *_ in server.listen_addrs:\n", "R23.3"),
+    Mutant("only-first-listen-address", PS, "            for listen_host, listen_port, *_ in server.listen_addrs:\n", "            for listen_host, listen_port, *_ in server.listen_addrs[:1]:\n", "R23.3"),
     Mutant("F-C23-literal-tuple-membership", PS, _FIXED, "and connect_host in (\"localhost\", \"127.0.0.1\", \"::1\", listen_host)", "R23.1"),
     Mutant("case-not-normalised", PS, "    host = host.lower().removesuffix(\".\")\n", "    host = host.removesuffix(\".\")\n", "R23.1"),
     Mutant("trailing-dot-not-stripped", PS, "    host = host.lower().removesuffix(\".\")\n", "    host = host.lower()\n", "R23.1"),
@@ -434,7 +532,7 @@ MUTANTS = [
     Mutant("wildcard-not-recognised", PS, "    return ip.is_loopback or ip.is_unspecified\n", "    return ip.is_loopback\n", "R23.1"),
     Mutant("listen-host-dropped", PS, _FIXED, "and _is_local_host(connect_host)", "R23.1"),
     Mutant("port-test-dropped", PS, "                    connect_port == listen_port\n                    and (_is_local", "                    (_is_local", "R23.1"),
-    Mutant("transport-test-dropped", PS, "\n                    and server.mode.transport_protocol == data.server.transport_protocol\n", "\n", "R23.1"),
+    Mutant("transport-test-dropped", PS, "\n                    and server.mode.transport_protocol\n                    in (data.server.transport_protocol, \"both\")\n", "\n", "R23"),
     Mutant("hostname-crashes-guard", PS, "    try:\n        ip = ipaddress.ip_address(host)\n    except ValueError:\n        return False\n", "    ip = ipaddress.ip_address(host)\n", "R23.1"),
     Mutant("hit-writes-empty-error", PS, "                    data.server.error = (\n                        \"Request destination unknown. \"\n                        \"Unable to figure out where this request should be forwarded to.\"\n                    )\n",
            "                    data.server.error = \"\"\n", "R23.2"),
